@@ -10,8 +10,12 @@ import (
 	"sort"
 	"strings"
 	"sync"
+	"sync/atomic"
 	"time"
 )
+
+// querySeq makes every query file name unique (two obligations never share a file).
+var querySeq int64
 
 type solverSpec struct {
 	name string
@@ -134,7 +138,7 @@ func (v *Verifier) solve(o *Oblig, dir string, all bool) {
 		if len(parts) > 1 {
 			suffix = fmt.Sprintf(".part%d", i+1)
 		}
-		file := filepath.Join(dir, sanitizeFile(o.Name)+suffix+".smt2")
+		file := filepath.Join(dir, fmt.Sprintf("q%05d-", atomic.AddInt64(&querySeq, 1))+sanitizeFile(o.Name)+suffix+".smt2")
 		os.WriteFile(file, []byte(q+"(get-model)\n"), 0o644)
 		rv := v
 		if o.Expected {
@@ -200,7 +204,7 @@ func (v *Verifier) solveCanary(o *Oblig, dir string) {
 			allUnsat = false
 			break
 		}
-		file := filepath.Join(dir, sanitizeFile(o.Name)+fmt.Sprintf(".part%d", i+1)+".smt2")
+		file := filepath.Join(dir, fmt.Sprintf("q%05d-", atomic.AddInt64(&querySeq, 1))+sanitizeFile(o.Name)+fmt.Sprintf(".part%d", i+1)+".smt2")
 		os.WriteFile(file, []byte(o.renderPart(p.Goal, p.Anc)), 0o644)
 		quick := &Verifier{Timeout: 3}
 		if v.Timeout < 3 {
